@@ -88,15 +88,15 @@ func unowned() {
 	}
 }
 
-func New(src Source) *Rand            { unowned(); return mrand.New(src) }
-func NewSource(seed int64) Source     { unowned(); return mrand.NewSource(seed) }
-func Int63() int64                    { unowned(); return mrand.Int63() }
-func Int31() int32                    { unowned(); return mrand.Int31() }
-func Uint32() uint32                  { unowned(); return mrand.Uint32() }
-func Uint64() uint64                  { unowned(); return mrand.Uint64() }
-func Int63n(n int64) int64            { unowned(); return mrand.Int63n(n) }
-func NormFloat64() float64            { unowned(); return mrand.NormFloat64() }
-func ExpFloat64() float64             { unowned(); return mrand.ExpFloat64() }
-func Perm(n int) []int                { unowned(); return mrand.Perm(n) }
+func New(src Source) *Rand               { unowned(); return mrand.New(src) }
+func NewSource(seed int64) Source        { unowned(); return mrand.NewSource(seed) }
+func Int63() int64                       { unowned(); return mrand.Int63() }
+func Int31() int32                       { unowned(); return mrand.Int31() }
+func Uint32() uint32                     { unowned(); return mrand.Uint32() }
+func Uint64() uint64                     { unowned(); return mrand.Uint64() }
+func Int63n(n int64) int64               { unowned(); return mrand.Int63n(n) }
+func NormFloat64() float64               { unowned(); return mrand.NormFloat64() }
+func ExpFloat64() float64                { unowned(); return mrand.ExpFloat64() }
+func Perm(n int) []int                   { unowned(); return mrand.Perm(n) }
 func Shuffle(n int, swap func(i, j int)) { unowned(); mrand.Shuffle(n, swap) }
-func Read(p []byte) (int, error)      { unowned(); return mrand.Read(p) }
+func Read(p []byte) (int, error)         { unowned(); return mrand.Read(p) }
